@@ -55,12 +55,12 @@ def strip_other(entries):
     return [{k: v for k, v in e.items() if k != "other_flags"} for e in entries]
 
 
-def event(out, expect, eoie_pre):
+def event(out, expect, eoie_pre, check_eoie=True):
     ob = out["bytes"]
     rr = out["reread"]
     return {"out": ob, "expect": expect, "reread": rr.get("state", {}), "reread_failed": "state" not in rr,
             "version_ret": out["version"], "checksum": out["checksum"], "sha_body": sha1(ob[:-20]),
-            "eoie_pre": eoie_pre, "eoie_sha": sha1(eoie_pre)}
+            "check_eoie": check_eoie, "eoie_pre": eoie_pre, "eoie_sha": sha1(eoie_pre)}
 
 
 def why(ctx, events):
@@ -149,7 +149,7 @@ def audit_rendered(ctx, items):
 
 def run(ctx):
     binary = ctx.build("vh-c25")
-    cases = ctx.tlc_gen("index", "IndexWrite_Gen", consts={"Family": '"flags"', "MaxPaths": 3 if ctx.thorough else 2}, workers=6, timeout=3000)
+    cases = ctx.tlc_gen("index", "IndexWrite_Gen", consts={"Family": '"flags"', "MaxPaths": 3 if ctx.thorough else 2, "TreeShapes": 3 if ctx.thorough else 2}, workers=6, timeout=3000)
     cases += ctx.tlc_gen("index", "IndexWrite_Gen", consts={"Family": '"paths"', "PathVersions": "{2, 4}" if ctx.thorough else "{2}"}, workers=6, timeout=3000)
     ctx.cov["exhaustive"] = True
     # states of the "paths" family are assembled through the API (dangerously_push_entry + sort_entries), the others are
@@ -209,9 +209,11 @@ def run(ctx):
                       "sdir": mem["sparse"], "eoie": o["opt"] in ("all", "eoie")}
             pending.append((o, expect, ("world", wi, o["opt"])))
         ctx.nontrivial(json.dumps([c["features"], c["op"]]) + str(wi))
-    pres = eoie_pres(ctx, [o["bytes"] for o, _e, _w in pending]) if pending else []
+    # the EOIE hash of these files needs a first pass through the reference reader (what the hash covers); thorough tier only -
+    # the generated states above have their EOIE hash checked in both tiers
+    pres = eoie_pres(ctx, [o["bytes"] for o, _e, _w in pending]) if (pending and ctx.thorough) else [[] for _ in pending]
     for (o, expect, own), pre in zip(pending, pres):
-        events.append(event(o, expect, pre))
+        events.append(event(o, expect, pre, check_eoie=ctx.thorough))
         owner.append(own)
 
     rej = ctx.tlc_trace("index", "IndexWrite_Trace", events, timeout=3000, xmx="8g")
